@@ -7,6 +7,7 @@ use std::collections::BTreeMap;
 
 pub mod c01;
 pub mod c05;
+pub mod c06;
 pub mod c08;
 pub mod c09;
 pub mod c10;
